@@ -8,6 +8,8 @@ import (
 	"encoding/json"
 	"fmt"
 	"os"
+	"os/exec"
+	"panmc/internal/tk"
 	"path/filepath"
 	"regexp"
 	"strings"
@@ -22,6 +24,8 @@ func init() {
 		Level: "model_checking",
 		Rule: "all ordered pairs/triples (thorough: 4-chains over level representatives) of the 23 infix operators x operand shapes, plus prefix/chain/if/assign/jump mixes, " +
 			"each parsed by the real parser and by a reference precedence-climbing parser generated from the table in docs/reference/operators.md; " +
+			"F9: 16 first statements x 120 second lines that begin with a name starting with a reserved word x 7 separators: both statements must parse as each does alone; " +
+			"F10: every ordered pair of infix operators and 6 statement forms per operator as a one-liner run by the real binary with -p: it prints what the one-liner gives as a program of its own; " +
 			"non-trivial = the expression contains at least two constructs whose relative grouping the table decides; distinct = distinct source text",
 		Assumptions: []string{
 			"ast.Program.String() renders the grouping faithfully (it is the observable named by the property)",
@@ -580,6 +584,120 @@ func generate(lv *levels, thorough bool, emit func(tcase)) {
 	}
 }
 
+// ---------------------------------------------------------------- statements next to each other
+
+// A statement ends at its line break: a following line that begins with a name which merely starts with a
+// reserved word (elsewhere, ifx, returned ...) is the next statement, whatever the first one was (in particular
+// an if without else). Both statements must come out exactly as each parses alone.
+func checkStatementPairs(c *core.Ctx) {
+	firsts := []string{"a if b", "a if b else c", "a", "f(a)", "a + b", "x := a if b", "return a if b", "yield a if b", "raise a if b", "defer a if b", "a.p", "x := (a if b)", "a if b # note", "a if b  ", "-a", "a if !b"}
+	var seconds []string
+	for _, kw := range []string{"if", "else", "return", "yield", "raise", "defer"} {
+		for _, suf := range []string{"where", "_val", "1", "X"} {
+			n := kw + suf
+			seconds = append(seconds, n+" := 2", n, n+" + 1", n+".p", n+"(1)")
+		}
+	}
+	seps := []string{"\n", "\n\n", "\n# c\n", "\r\n", " \n ", "\n\t", "; "}
+	alone := func(src string) (string, string) {
+		n, o := panrun.Parse(src + "\n")
+		if o != nil {
+			return "", o.Kind + ": " + o.ErrMsg + o.Panic
+		}
+		if len(n.Stmts) != 1 {
+			return "", fmt.Sprintf("parsed into %d statements", len(n.Stmts))
+		}
+		return n.Stmts[0].String(), ""
+	}
+	k := 0
+	for _, f := range firsts {
+		for _, s2 := range seconds {
+			k++
+			if !c.Mine(k) {
+				continue
+			}
+			w1, e1 := alone(f)
+			w2, e2 := alone(s2)
+			if e1 != "" || e2 != "" {
+				c.HarnessError("statement does not parse alone: %q %s / %q %s", f, e1, s2, e2)
+				return
+			}
+			for _, sep := range seps {
+				if strings.Contains(f, "#") && sep == "; " {
+					continue
+				}
+				src := f + sep + s2
+				c.Eval(1)
+				c.Nontrivial(1)
+				c.Validated(1)
+				got, e := "", ""
+				n, o := panrun.Parse(src + "\n")
+				if o != nil {
+					e = o.Kind + ": " + o.ErrMsg + o.Panic
+				} else {
+					var parts []string
+					for _, st := range n.Stmts {
+						parts = append(parts, st.String())
+					}
+					got = strings.Join(parts, " ;; ")
+				}
+				want := w1 + " ;; " + w2
+				c.Outcome("F9:" + map[bool]string{true: "ok", false: "differs"}[e == "" && got == want])
+				if e != "" || got != want {
+					c.Violation(core.Violation{Key: "F9/statements-fused-or-rejected", Case: core.JSON(tcase{Family: "F9:" + src}), Desc: fmt.Sprintf("%q", src), Expected: want, Observed: got + e})
+				}
+			}
+		}
+	}
+}
+
+// ---------------------------------------------------------------- one-liners given to the command line
+
+// `-p -e SRC` evaluates SRC once per input line (the line is `\`) and prints the value. SRC is a whole program of
+// its own: its grouping is the one it has as the body of a function called with the line, whatever text the
+// command line wraps around it. Every ordered pair of infix operators and a few statement forms are run by the
+// real binary both ways and must print the same.
+func checkOneLiners(c *core.Ctx, lv *levels) {
+	cli := os.Getenv("PANMC_CLI")
+	if cli == "" {
+		c.HarnessError("PANMC_CLI is not set")
+		return
+	}
+	ops := infixOps(lv)
+	var srcs []string
+	for _, o1 := range ops {
+		for _, o2 := range ops {
+			srcs = append(srcs, fmt.Sprintf("\\.I %s 2 %s 3", o1, o2))
+		}
+		srcs = append(srcs, fmt.Sprintf("x := \\.I %s 2", o1), fmt.Sprintf("7 if \\.I %s 2 else 8", o1), fmt.Sprintf("-\\.I %s 2", o1), fmt.Sprintf("!\\.I %s 2", o1),
+			fmt.Sprintf("y := 5; \\.I %s y", o1), fmt.Sprintf("\\.I %s 2 => z", o1))
+	}
+	srcs = append(srcs, "\\", "\\.I", "\\.I.S + \\", "[\\.I, 2]", "{a: \\.I}", "\\.I if true", "return \\.I if true; 9")
+	run := func(stdin string, args ...string) string {
+		cmd := exec.Command("timeout", append([]string{"30", cli}, args...)...)
+		cmd.Stdin = strings.NewReader(stdin)
+		var so, se strings.Builder
+		cmd.Stdout, cmd.Stderr = &so, &se
+		cmd.Run()
+		return so.String() + "|" + strings.SplitN(se.String(), "\n", 2)[0]
+	}
+	tk.Sharded(c, len(srcs), func(i int) {
+		src := srcs[i]
+		c.Eval(1)
+		c.Nontrivial(1)
+		c.Validated(1)
+		want := run("", "-e", "{|| "+src+"}(\"3\").p")
+		got := run("3\n", "-p", "-e", src)
+		if want == "nil\n|" {
+			want = "|" // the printing chain of -p drops a nil value
+		}
+		c.Outcome("F10:" + map[bool]string{true: "ok", false: "differs"}[got == want])
+		if got != want {
+			c.Violation(core.Violation{Key: "F10/one-liner-regrouped", Case: core.JSON(tcase{Family: "F10:" + src}), Desc: "-p -e '" + src + "' with the input line 3", Expected: fmt.Sprintf("%q (what the one-liner gives as a program of its own)", want), Observed: fmt.Sprintf("%q", got)})
+		}
+	})
+}
+
 // ---------------------------------------------------------------- running
 
 type prepared struct {
@@ -723,12 +841,25 @@ func run(c *core.Ctx) {
 	})
 	flush()
 	c.Note("distinct_expressions", k)
+	checkStatementPairs(c)
+	checkOneLiners(c, lv)
 }
 
 func replay(c *core.Ctx, raw json.RawMessage) {
 	var tc tcase
 	if err := json.Unmarshal(raw, &tc); err != nil {
 		c.HarnessError("bad case: %v", err)
+		return
+	}
+	if strings.HasPrefix(tc.Family, "F10:") {
+		if lv, err := readLevels(); err == nil {
+			checkOneLiners(c, lv)
+		}
+		return
+	}
+	if strings.HasPrefix(tc.Family, "F9:") {
+		// the family is small: it is run again as a whole
+		checkStatementPairs(c)
 		return
 	}
 	lv, err := readLevels()
